@@ -19,13 +19,20 @@ pub struct Tally {
     pub nontrivial: u64,
     pub printed: u64,
     pub dev: u64,
+    pub current: Option<Value>,
 }
 
 impl Tally {
     /// mismatches explained by a named deviation of the model (known findings) are counted and
     /// only the first few are printed, so that they can never crowd out an unexplained one
-    pub fn mismatch(&mut self, v: Value) {
+    pub fn mismatch(&mut self, mut v: Value) {
         self.mismatches += 1;
+        // every mismatch carries the behaviour it came from, so that it can be replayed alone
+        if let (Some(m), Some(c)) = (v.as_object_mut(), self.current.as_ref()) {
+            if !m.contains_key("case") {
+                m.insert("case".into(), c.clone());
+            }
+        }
         let is_dev = v.get("dev").map(|d| !d.is_null()).unwrap_or(false);
         if is_dev {
             self.dev += 1;
@@ -199,7 +206,7 @@ fn replay_stab(doc: &Value, t: &mut Tally) {
 pub fn main(args: &[String]) {
     silence_panics();
     let input = arg_value(args, "--in").unwrap_or_else(|| "-".to_string());
-    let mut t = Tally { n: 0, executions: 0, mismatches: 0, nontrivial: 0, printed: 0, dev: 0 };
+    let mut t = Tally { n: 0, executions: 0, mismatches: 0, nontrivial: 0, printed: 0, dev: 0, current: None };
     let ctx = crate::replay_str::Ctx::new(args);
     for line in lines_of(&input) {
         if line.is_empty() {
@@ -207,6 +214,7 @@ pub fn main(args: &[String]) {
         }
         let doc: Value = serde_json::from_str(&line).unwrap_or_else(|e| tool_error(&format!("bad replay line: {} ({})", e, &line[..line.len().min(200)])));
         t.n += 1;
+        t.current = Some(doc.clone());
         match doc["k"].as_str().unwrap_or("") {
             "cmp" => replay_cmp(&doc, &mut t),
             "search" => replay_search(&doc, &mut t),
